@@ -6,6 +6,7 @@ from .rules import loops as lp
 from .rules import batch as bt
 from .rules import globalstate as gs
 from .rules import interrupt as it
+from .rules import optionrules as op
 
 NOT_BEHAVIOUR = 'decides the listed structural clauses (necessary conditions); does not decide the behaviour itself'
 
@@ -57,6 +58,16 @@ prop('C19',
      ['renderers load only keys that are certainly stored (R43)', 'append-only, append-last action list (R44)',
       'nothing swallows the interrupt (R45)', 'driver plumbing of the interrupt flag (R46)'],
      ['determinism of the count (needed for "prefix of THE uninterrupted record"): see C20'])
+prop('C17',
+     [('R34', op.r34_layer_order), ('R35', op.r35_forced_closure), ('R36', op.r36_construction_order)],
+     'Static analysis of /repo source: Options.getopt and the recorded effective options consult the four layers in the '
+     'order default < file < command < forced; setopt/update write the right layer; for each rule the property lists as '
+     'fixed by statute, every option read by the rule or by its arithmetic class is forced by that rule with a constant; '
+     'Election.__init__ merges file options as file options before the rule sees them and selects the arithmetic after. '
+     + NOT_BEHAVIOUR,
+     ['layer order in getopt and in the recorded effective options (R34)',
+      'forced closure of statutory rules (R35)', 'construction order (R36)'],
+     ['that the report text names unused/overridden options correctly'])
 
 LEVEL_TEXT = ('Static analysis of the source of /repo (never executed): obligations are enumerated from the '
               'repository\'s own entities (rule classes, call sites, stores, loops, class attributes) and each is '
